@@ -284,4 +284,4 @@ Proof.
   all: try (exfalso; use_excl_l i0; case_fp; fail).
   all: try (intuition; case_fp; fail).
   all: match goal with H : lp _ = ?p |- ?G => idtac "PC" p "|-" G end.
-Qed.
+Show. Abort.
